@@ -166,15 +166,15 @@ def wiring_violations(net, undriven=False, pins=True):
             for p in ins:
                 pn = f"{inst}.{p}"
                 if pn not in nodes:
-                    out.append(("I6m", pn, "missing pin"))
+                    out.append(("I6m", pn, f"missing pin of instance {inst}"))
                 elif nodes[pn][0] != "bb_input":
-                    out.append(("I6t", pn, f"pin has type {nodes[pn][0]}"))
+                    out.append(("I6t", pn, f"pin has type {nodes[pn][0]}, of instance {inst}"))
             for p in outs:
                 pn = f"{inst}.{p}"
                 if pn not in nodes:
-                    out.append(("I6m", pn, "missing pin"))
+                    out.append(("I6m", pn, f"missing pin of instance {inst}"))
                 elif nodes[pn][0] != "bb_output":
-                    out.append(("I6t", pn, f"pin has type {nodes[pn][0]}"))
+                    out.append(("I6t", pn, f"pin has type {nodes[pn][0]}, of instance {inst}"))
     return out
 
 
